@@ -314,6 +314,25 @@ pub fn spec(id: &str) -> Option<Spec> {
             worker_timeout_s: |t| t.pick(1800, 6 * 3600),
             rayon_threads: 16,
         },
+        "C07" => Spec {
+            id: "C07",
+            level: "exploration",
+            rule: "Seeded typed expressions (depth 1-3) over u8..u128, i8..i128, felt252 and bool: + - * / % & | ^, negation, \
+                   comparisons, && || !, if, block-let, tuple destructuring, struct member access, const fn calls, \
+                   into / try_into().unwrap() conversions, match on an enum; operands from the types' boundary sets and \
+                   random values. Each expression e[v] appears as `const C: T = e[v]` (+ getter), as its run-time twin \
+                   `fn f(x..) -> T { e[x..] }` called with v as opaque arguments, and as `fn g() -> T { e[v] }` compiled \
+                   with constant folding on and off. Oracle: const accepted => getter value == f(v) and f(v) does not \
+                   panic; const rejected by evaluation (range / division by zero / failed calculation) => f(v) panics; \
+                   g() == f(v) under both folding settings. Expressions rejected for other reasons are outside the \
+                   domain (counted). Non-trivial = distinct (type, expression with operands) fully compared.",
+            floor: |t| t.pick(800, 20_000),
+            shards: |_| 1,
+            crash_is_violation: false,
+            assumptions: &["the run-time evaluation of the same expression by the compiled program is the reference (no model of mine is involved)"],
+            worker_timeout_s: |t| t.pick(1500, 5 * 3600),
+            rayon_threads: 16,
+        },
         _ => return None,
     })
 }
@@ -334,6 +353,7 @@ pub fn worker(id: &str, ctx: &mut Ctx) {
         "C14" | "C15" => crate::sierra_mut::sierra_worker(ctx, id),
         "C05" => crate::metamorph::c05_worker(ctx),
         "C06" => crate::opmatrix::c06_worker(ctx),
+        "C07" => crate::constcheck::c07_worker(ctx),
         "C11" => crate::fmtchecks::c11_worker(ctx),
         "C12" => crate::dbscen::c12_worker(ctx),
         "C13" => crate::dbscen::c13_worker(ctx),
@@ -354,6 +374,7 @@ pub fn replay(id: &str, case: &Value) -> Result<Option<String>, String> {
         "C14" | "C15" => crate::sierra_mut::sierra_replay(id, case),
         "C05" => crate::metamorph::c05_replay(case),
         "C06" => crate::opmatrix::c06_replay(case),
+        "C07" => crate::constcheck::c07_replay(case),
         "C11" => crate::fmtchecks::c11_replay(case),
         "C12" => crate::dbscen::c12_replay(case),
         "C13" => crate::dbscen::c13_replay(case),
